@@ -25,7 +25,11 @@ import (
 	"sync/atomic"
 	"time"
 
+	"github.com/coredns/coredns/plugin/pkg/dnstest"
+	"github.com/miekg/dns"
+
 	"github.com/facebookincubator/dns/dnsrocks/db"
+	"github.com/facebookincubator/dns/dnsrocks/dnsserver/test"
 	"github.com/facebookincubator/dns/dnsrocks/dnsserver"
 	"github.com/facebookincubator/dns/dnsrocks/dnsserver/stats"
 
@@ -56,6 +60,32 @@ const intrWait = 25 * time.Millisecond
 const intrReloadTimeout = 3 * time.Second
 
 var validationKey = []byte("valid")
+
+// Every fake backend serves one tiny zone, enough for ServeDNSWithRCODE to build a
+// cacheable authoritative answer: SOA, NS and TXT at the apex example. (rows in the layout
+// db.ExtractRRFromRow reads: type, '=', ttl, 8 bytes, rdata in wire format).
+var apexKey = append([]byte{0, 0}, packName("example.")...)
+
+func packName(n string) []byte {
+	b := make([]byte, 255)
+	off, err := dns.PackDomainName(n, b, 0, nil, false)
+	if err != nil {
+		panic(err)
+	}
+	return b[:off]
+}
+
+func row(t uint16, rdata []byte) []byte {
+	r := []byte{byte(t >> 8), byte(t), '=', 0, 0, 0, 60, 0, 0, 0, 0, 0, 0, 0, 0}
+	return append(r, rdata...)
+}
+
+var apexRows = [][]byte{
+	row(dns.TypeSOA, append(append(packName("ns.example."), packName("h.example.")...),
+		0, 0, 0, 1, 0, 0, 14, 16, 0, 0, 3, 132, 0, 9, 58, 128, 0, 0, 0, 60)),
+	row(dns.TypeNS, packName("ns.example.")),
+	row(dns.TypeTXT, []byte{2, 'h', 'i'}),
+}
 
 // ---------------------------------------------------------------- instrumented backend
 
@@ -167,6 +197,13 @@ func (f *fakeDB) ForEach(key []byte, fn func(value []byte) error, c db.Context) 
 	if has && bytes.Equal(key, validationKey) {
 		return fn([]byte{1})
 	}
+	if bytes.Equal(key, apexKey) {
+		for _, r := range apexRows {
+			if err := fn(append([]byte{}, r...)); err != nil {
+				return err
+			}
+		}
+	}
 	return nil
 }
 func (f *fakeDB) FindMap(domain, mtype []byte, c db.Context) ([]byte, error) {
@@ -260,6 +297,7 @@ type gop struct {
 	C   string `json:"c,omitempty"`   // new same err
 	Key bool   `json:"key,omitempty"` // validation key present
 	I   int    `json:"i,omitempty"`   // index of the pending reload
+	Q   int    `json:"q,omitempty"`   // query: 0 = TXT at the apex (answer), 1 = A below it (name error)
 	At  string `json:"at,omitempty"`  // reloadx: hook point locked | dbireload | close | done
 	X   *gop   `json:"x,omitempty"`   // reloadx: operation attempted from another goroutine at that point
 }
@@ -269,7 +307,7 @@ type stepOut struct {
 	Events [][2]int `json:"events"`
 	Res    int      `json:"res"`
 	Served int      `json:"served"`
-	Refs   [][3]int `json:"refs"` // backend id, refCount, destroyable
+	Refs   [][3]uint64 `json:"refs"` // backend id, refCount, destroyable
 	Pins   [][2]int `json:"pins"` // slot, backend id
 	Uac    int      `json:"uac"`
 	Dc     int      `json:"dc"`
@@ -287,6 +325,7 @@ type caseOut struct {
 	Note  string    `json:"note,omitempty"`
 	Tmo   int       `json:"tmo,omitempty"` // ReloadTimeout of the handler in ms (0: the default)
 	Mult  int       `json:"mult,omitempty"` // race-rel: iterations with exactly this observation
+	Cache bool      `json:"cache,omitempty"` // the handler has its response cache enabled
 }
 
 // tracker is the harness' own view of which operations are enabled.
@@ -303,6 +342,8 @@ func (t *tracker) ok(o gop, weak bool) bool {
 	switch o.K {
 	case "acq":
 		return !t.shut && !t.held[o.R]
+	case "query":
+		return !t.shut
 	case "use", "rel":
 		return t.held[o.R]
 	case "reload", "race":
@@ -446,6 +487,18 @@ func (r *runner) fire(point string, sc *script) {
 	}
 }
 
+// serve sends one query through ServeDNSWithRCODE of the handler under test.
+func (r *runner) serve(q int) {
+	req := new(dns.Msg)
+	if q == 0 {
+		req.SetQuestion("example.", dns.TypeTXT)
+	} else {
+		req.SetQuestion("www.example.", dns.TypeA)
+	}
+	rec := dnstest.NewRecorder(&test.ResponseWriterCustomRemote{RemoteIP: "10.1.2.3"})
+	r.fb.ServeDNSWithRCODE(context.Background(), rec, req)
+}
+
 func (r *runner) runX(in *intrusion) {
 	x := in.x
 	switch x.K {
@@ -460,6 +513,8 @@ func (r *runner) runX(in *intrusion) {
 		r.readers[x.R].rd.Close()
 	case "shutdown":
 		r.fb.Close()
+	case "query":
+		r.serve(x.Q)
 	case "reload":
 		in.xsc = &script{cand: x.C, key: x.Key, done: make(chan struct{})}
 		r.w.mu.Lock()
@@ -480,7 +535,7 @@ func (r *runner) takeEventsG() ([][2]int, []uint64, int) {
 }
 
 func (r *runner) observePartial(o gop, res int, events [][2]int, uac, dc int) {
-	r.out.Steps = append(r.out.Steps, stepOut{Op: o, Events: events, Res: res, Refs: [][3]int{}, Pins: [][2]int{},
+	r.out.Steps = append(r.out.Steps, stepOut{Op: o, Events: events, Res: res, Refs: [][3]uint64{}, Pins: [][2]int{},
 		Uac: uac, Dc: dc, Partial: true})
 }
 
@@ -763,14 +818,14 @@ func (r *runner) observe(o gop, res int, events [][2]int) {
 	if !seen {
 		r.known = append(r.known, cur)
 	}
-	st := stepOut{Op: o, Events: events, Res: res, Served: r.probe(cur), Refs: [][3]int{}, Pins: [][2]int{}}
+	st := stepOut{Op: o, Events: events, Res: res, Served: r.probe(cur), Refs: [][3]uint64{}, Pins: [][2]int{}}
 	for _, k := range r.known {
 		rc, d := k.RefCountForVerif()
-		di := 0
+		di := uint64(0)
 		if d {
 			di = 1
 		}
-		st.Refs = append(st.Refs, [3]int{r.probe(k), int(rc), di})
+		st.Refs = append(st.Refs, [3]uint64{uint64(r.probe(k)), rc, di})
 	}
 	for slot := 0; slot < 64; slot++ {
 		if h, ok := r.readers[slot]; ok {
@@ -843,6 +898,9 @@ func (r *runner) do(o gop) {
 		}
 		r.readers[o.R] = &heldReader{rd: rd, bk: bk}
 		r.observe(o, 0, ev)
+	case "query":
+		r.serve(o.Q)
+		r.observe(o, 0, r.takeEvents())
 	case "reloadx":
 		r.doReloadX(o)
 	case "racerel":
@@ -927,7 +985,7 @@ func (r *runner) do(o gop) {
 	}
 }
 
-func runHistory(class string, gen []gop, tmoMs int) caseOut {
+func runHistory(class string, gen []gop, tmoMs int, cache bool) caseOut {
 	var out caseOut
 	tmo := reloadTimeout
 	if tmoMs > 0 {
@@ -943,7 +1001,7 @@ func runHistory(class string, gen []gop, tmoMs int) caseOut {
 		fb, err := dnsserver.NewFBDNSDBBasic(dnsserver.HandlerConfig{},
 			dnsserver.DBConfig{Path: "/nonexistent/verif-c06/db", Driver: "fake", ReloadTimeout: tmo,
 				ValidationKey: append([]byte{}, validationKey...)},
-			dnsserver.CacheConfig{}, &dnsserver.DummyLogger{}, &stats.DummyStats{})
+			dnsserver.CacheConfig{Enabled: cache, LRUSize: 16}, &dnsserver.DummyLogger{}, &stats.DummyStats{})
 		if err != nil {
 			panic(err)
 		}
@@ -952,7 +1010,7 @@ func runHistory(class string, gen []gop, tmoMs int) caseOut {
 		r := &runner{w: w, fb: fb, known: []*db.DB{d0}, readers: map[int]*heldReader{}}
 		w.r = r
 		runners.Store(me, r)
-		r.out = caseOut{Class: class, Gen: gen, Steps: []stepOut{}, Tmo: tmoMs}
+		r.out = caseOut{Class: class, Gen: gen, Steps: []stepOut{}, Tmo: tmoMs, Cache: cache}
 		r.out.Init = r.takeEvents()
 		t := newTracker()
 		for _, o := range gen {
@@ -1005,7 +1063,9 @@ func genRandom(r *hlib.Rng, maxLen int, slots int) []gop {
 	var h []gop
 	for len(h) < n {
 		var o gop
-		switch r.Pick([]int{5, 5, 4, 9, 2, 4, 1}) {
+		switch r.Pick([]int{5, 5, 4, 9, 2, 4, 1, 6}) {
+		case 7:
+			o = gop{K: "query", Q: r.Pick([]int{4, 1})}
 		case 0:
 			o = gop{K: "acq", R: r.Intn(slots)}
 		case 1:
@@ -1024,7 +1084,7 @@ func genRandom(r *hlib.Rng, maxLen int, slots int) []gop {
 				continue
 			}
 			o = gop{K: "late", I: r.Intn(t.npend), C: []string{"new", "same", "err"}[r.Intn(3)], Key: r.Chance(1, 2)}
-		default:
+		case 6:
 			if len(h) < n/2 {
 				continue
 			}
@@ -1065,6 +1125,7 @@ func alphabet(slots int) []gop {
 		a = append(a, gop{K: "acq", R: s}, gop{K: "use", R: s}, gop{K: "rel", R: s})
 	}
 	a = append(a, cands...)
+	a = append(a, gop{K: "query"})
 	a = append(a, gop{K: "tfirst"}, gop{K: "late", C: "new", Key: true}, gop{K: "late", C: "same", Key: true},
 		gop{K: "late", C: "err"}, gop{K: "shutdown"})
 	return a
@@ -1104,6 +1165,7 @@ type job struct {
 	class string
 	gen   []gop
 	tmo   int
+	cache bool
 }
 
 func runAll(jobs []job, e *hlib.Emitter, par int) {
@@ -1116,7 +1178,7 @@ func runAll(jobs []job, e *hlib.Emitter, par int) {
 		go func(i int) {
 			defer wg.Done()
 			defer func() { <-sem }()
-			res[i] = runHistory(jobs[i].class, jobs[i].gen, jobs[i].tmo)
+			res[i] = runHistory(jobs[i].class, jobs[i].gen, jobs[i].tmo, jobs[i].cache)
 		}(i)
 	}
 	wg.Wait()
@@ -1138,7 +1200,7 @@ func runRaceRel(jobs []job, e *hlib.Emitter) {
 		go func(i int) {
 			defer wg.Done()
 			defer func() { <-sem }()
-			res[i] = runHistory(jobs[i].class, jobs[i].gen, jobs[i].tmo)
+			res[i] = runHistory(jobs[i].class, jobs[i].gen, jobs[i].tmo, jobs[i].cache)
 		}(i)
 	}
 	wg.Wait()
@@ -1191,7 +1253,7 @@ func replayRaceRel(gen []gop) caseOut {
 			go func(i int, g []gop) {
 				defer wg.Done()
 				defer func() { <-sem }()
-				res[i] = runHistory("race-rel", g, 0)
+				res[i] = runHistory("race-rel", g, 0, false)
 			}(i, g)
 		}
 		wg.Wait()
@@ -1225,8 +1287,10 @@ func run(a *hlib.Args, e *hlib.Emitter) error {
 			var class string
 			var gen []gop
 			var tmo int
+			var cache bool
 			json.Unmarshal(m["class"], &class)
 			json.Unmarshal(m["tmo"], &tmo)
+			json.Unmarshal(m["cache"], &cache)
 			if err := json.Unmarshal(m["gen"], &gen); err != nil {
 				return err
 			}
@@ -1237,7 +1301,7 @@ func run(a *hlib.Args, e *hlib.Emitter) error {
 				e.Emit(replayRaceRel(gen))
 				continue
 			}
-			jobs = append(jobs, job{class, gen, tmo})
+			jobs = append(jobs, job{class, gen, tmo, cache})
 		}
 		runAll(jobs, e, 4)
 		return nil
@@ -1245,9 +1309,9 @@ func run(a *hlib.Args, e *hlib.Emitter) error {
 	var jobs []job
 	// the in-flight finding F28 (outside the guard of the theorems): three fixed witnesses
 	inflight := []job{
-		{"inflight", []gop{{K: "tfirst"}, {K: "reload", C: "new", Key: true}, {K: "late", C: "err"}}, 0},
-		{"inflight", []gop{{K: "acq", R: 0}, {K: "tfirst"}, {K: "reload", C: "new", Key: true}, {K: "rel", R: 0}, {K: "late", C: "same", Key: true}}, 0},
-		{"inflight", []gop{{K: "tfirst"}, {K: "shutdown"}, {K: "late", C: "new", Key: true}}, 0}}
+		{"inflight", []gop{{K: "tfirst"}, {K: "reload", C: "new", Key: true}, {K: "late", C: "err"}}, 0, false},
+		{"inflight", []gop{{K: "acq", R: 0}, {K: "tfirst"}, {K: "reload", C: "new", Key: true}, {K: "rel", R: 0}, {K: "late", C: "same", Key: true}}, 0, false},
+		{"inflight", []gop{{K: "tfirst"}, {K: "shutdown"}, {K: "late", C: "new", Key: true}}, 0, false}}
 	if a.Extra == "inflight" {
 		runAll(inflight, e, 4)
 		return nil
@@ -1266,12 +1330,12 @@ func run(a *hlib.Args, e *hlib.Emitter) error {
 	if a.Tier == "thorough" {
 		depth, slots = 4, 2
 	}
-	enumerate(depth, slots, func(h []gop) { jobs = append(jobs, job{fmt.Sprintf("exh%d", depth), h, 0}) })
+	enumerate(depth, slots, func(h []gop) { jobs = append(jobs, job{fmt.Sprintf("exh%d", depth), h, 0, true}) })
 	r := hlib.NewRng(a.Seed, 6)
 	nrace := a.N / 12
 	nintr := a.N / 8
 	for i := 0; i < a.N-nrace-nintr; i++ {
-		jobs = append(jobs, job{"random", genRandom(r, 25, 3), 0})
+		jobs = append(jobs, job{"random", genRandom(r, 25, 3), 0, r.Chance(2, 3)})
 	}
 	runAll(jobs, e, 24)
 	runAll(intrusionJobs(hlib.NewRng(a.Seed, 7), nintr), e, 16)
@@ -1294,7 +1358,7 @@ func run(a *hlib.Args, e *hlib.Emitter) error {
 				pre = append(pre, gop{K: "rel", R: s})
 			}
 		}
-		jobs = append(jobs, job{"race", pre, 0})
+		jobs = append(jobs, job{"race", pre, 0, r.Chance(1, 2)})
 	}
 	runAll(jobs, e, 3) // the race attempts busy-wait: keep them away from each other
 	nrr := 30 * a.N
@@ -1325,7 +1389,7 @@ func raceRelJobs(r *hlib.Rng, n int) []job {
 		}
 		skew := r.Intn(241) - 120 // jitter in ns around the adaptive start skew
 		h = append(h, gop{K: "racerel", R: 0, X: &x, I: skew})
-		jobs = append(jobs, job{"race-rel", h, 0})
+		jobs = append(jobs, job{"race-rel", h, 0, false})
 	}
 	return jobs
 }
@@ -1340,21 +1404,25 @@ func intrusionJobs(r *hlib.Rng, nrandom int) []job {
 	ats := []string{"locked", "dbireload", "close", "done"}
 	for _, at := range ats {
 		for ci, c := range cands {
-			xs := []gop{{K: "acq", R: 0}, {K: "shutdown"}, {K: "reload", C: "new", Key: true}, {K: "reload", C: "same", Key: true}}
+			xs := []gop{{K: "acq", R: 0}, {K: "shutdown"}, {K: "reload", C: "new", Key: true}, {K: "reload", C: "same", Key: true}, {K: "query"}}
 			for _, x := range xs {
 				x := x
 				h := []gop{{K: "reloadx", C: c.C, Key: c.Key, At: at, X: &x}}
 				if x.K == "acq" {
 					h = append(h, gop{K: "use", R: 0}, gop{K: "rel", R: 0})
 				}
-				jobs = append(jobs, job{"intr-exh", h, tmo})
+				if x.K == "query" { // asked before (the attempt may be a cache hit) and again afterwards
+					h = append([]gop{{K: "query"}}, h...)
+					h = append(h, gop{K: "query"}, gop{K: "reload", C: "new", Key: true})
+				}
+				jobs = append(jobs, job{"intr-exh", h, tmo, true})
 				if ci != 0 {
 					continue
 				}
 				// the same with a reader held on the old backend
 				h2 := append([]gop{{K: "acq", R: 1}}, h...)
 				h2 = append(h2, gop{K: "use", R: 1}, gop{K: "rel", R: 1})
-				jobs = append(jobs, job{"intr-exh", h2, tmo})
+				jobs = append(jobs, job{"intr-exh", h2, tmo, true})
 			}
 			if ci == 0 {
 				for _, x := range []gop{{K: "use", R: 1}, {K: "rel", R: 1}} {
@@ -1363,7 +1431,7 @@ func intrusionJobs(r *hlib.Rng, nrandom int) []job {
 					if x.K == "use" {
 						h = append(h, gop{K: "rel", R: 1})
 					}
-					jobs = append(jobs, job{"intr-exh", h, tmo})
+					jobs = append(jobs, job{"intr-exh", h, tmo, true})
 				}
 			}
 		}
@@ -1375,7 +1443,9 @@ func intrusionJobs(r *hlib.Rng, nrandom int) []job {
 		nx := 0
 		for tries := 0; len(h) < n && tries < 200; tries++ {
 			var o gop
-			switch r.Pick([]int{4, 3, 3, 3, 6, 1}) {
+			switch r.Pick([]int{4, 3, 3, 3, 6, 1, 4}) {
+			case 6:
+				o = gop{K: "query"}
 			case 0:
 				o = gop{K: "acq", R: r.Intn(3)}
 			case 1:
@@ -1387,7 +1457,9 @@ func intrusionJobs(r *hlib.Rng, nrandom int) []job {
 			case 4:
 				c := cands[r.Pick([]int{6, 2, 1, 2, 1})]
 				var x gop
-				switch r.Pick([]int{6, 2, 2, 1, 2}) {
+				switch r.Pick([]int{6, 2, 2, 1, 2, 5}) {
+				case 5:
+					x = gop{K: "query"}
 				case 0:
 					x = gop{K: "acq", R: r.Intn(3)}
 				case 1:
@@ -1396,7 +1468,7 @@ func intrusionJobs(r *hlib.Rng, nrandom int) []job {
 					x = gop{K: "rel", R: r.Intn(3)}
 				case 3:
 					x = gop{K: "shutdown"}
-				default:
+				case 4:
 					x = cands[r.Pick([]int{4, 2, 1, 2, 2})]
 				}
 				o = gop{K: "reloadx", C: c.C, Key: c.Key, At: ats[r.Intn(len(ats))], X: &x}
@@ -1424,7 +1496,7 @@ func intrusionJobs(r *hlib.Rng, nrandom int) []job {
 				h = append(h, gop{K: "rel", R: s})
 			}
 		}
-		jobs = append(jobs, job{"intr", h, tmo})
+		jobs = append(jobs, job{"intr", h, tmo, r.Chance(2, 3)})
 	}
 	return jobs
 }
